@@ -35,15 +35,23 @@ CLAIMS = {
         'note': NOTE_COMMON + ' That the parser links P++Q as append_deep P Q is tied by tree dumps only.',
         'technique': 'Coq proof on the specification (composition + root-independence by mutual induction) + three-retrieval relational oracle'},
     'C02': {
-        'text': 'PARTIAL. Proved on the regenerated grammar and the action model: the PEG part never fails (every rejection is raised by '
-                'an action, C02_peg_never_fails), the comparison builders put operands in rank order with at most one swap and no '
-                'recursion (C02_compare_builder_total), syntax errors point inside the path. Not proved: absence of crash sites in the 46 '
-                'actions (stack discipline) and the fuel bound. Those are decided by the correspondence check: ~22,000 strings per quick '
-                'run (grammar-derived, mutated, token soup, Unicode, invalid UTF-8, the bounded-exhaustive reduced grammar) x 4 '
-                'configurations in isolated workers with a time limit; crash, timeout, (nil,nil), undocumented error type or a model '
-                'crash outcome is a violation.',
-        'note': NOTE_COMMON + ' Bounded time is a measurement (per-case wall-clock limit), not a proof.',
-        'technique': 'Coq proofs on the regenerated grammar (reflective shape check + generic PEG lemmas) + isolated-worker differential testing'},
+        'text': 'C02_parse_total (coq/Prop_C02.v): in the model — the Coq PEG interpreter running the grammar regenerated from '
+                '/repo/jsonpath.peg on this run, then the 46 actions replayed over the tokens — EVERY string yields a syntax tree or a '
+                'documented error. Ingredients, each a theorem evaluated on the regenerated grammar: the PEG part never fails '
+                '(C02_peg_never_fails); no action reaches a crash site — pop on an empty parameter list, failed type assertion, '
+                'text[0:1] on an empty capture, no root at the end (C02_no_crash_site: a verified stack-effect checker, '
+                'coq/StackCheck.v, types every rule against a summary; the node chain, the save/restore of the parameter list and '
+                'the start rule are proved by hand in the same Hoare logic, coq/StackLogic.v, StackRules.v); the fuel 200+40|input| '
+                'is never exhausted and no repetition spins without consuming (C02_fuel_suffices: rank argument, coq/Fuel.v); the '
+                'comparison builders do not recurse (C02_compare_builder_total; the pinned tree recursed for ever, D1). Not a '
+                'theorem: that the generated Go parser and the Go actions behave like the interpreter and Actions.v — decided by the '
+                'correspondence check: ~22,000 strings per quick run (grammar-derived, mutated, token soup, Unicode, invalid UTF-8, '
+                'bounded-exhaustive reduced grammar) x 4 configurations in isolated workers with a time limit; crash, timeout, '
+                '(nil,nil), undocumented error type or a different outcome class is a violation.',
+        'note': NOTE_COMMON + ' Bounded time of the Go parser is a measurement (per-case wall-clock limit); the theorem bounds the '
+                'interpreter\'s rule-call depth and repetition count linearly in the input length.',
+        'technique': 'Coq proofs on the regenerated grammar (verified stack-effect checker + Hoare logic for token replay + rank-based '
+                     'fuel bound) + isolated-worker differential testing'},
     'C17': {
         'text': 'Acceptance in the model is "derivable by the Coq PEG interpreter running the grammar regenerated from /repo/jsonpath.peg '
                 'on this run and no action rejects". Proved: C17_expression_total (start rule total), C17_position_accounting (captures '
